@@ -414,8 +414,8 @@ CORPUS_CHAIN = [
 
 def non_integer_chains(ctx, real):
     """Regression guard outside the Lean model (which has integer types only): the chain rewrites also
-    fire for ptr and float constants; the constant must be the plain sum (cast() leaves it alone) and
-    the pass must not raise (commit 4e7434c wrapped with correct() and raised AttributeError here)."""
+    may fire for ptr and float constants; if they do, the constant must be the plain sum (cast() leaves it
+    alone); leaving the instruction alone is fine too; the pass must not raise (commit 4e7434c wrapped with correct() and raised AttributeError here)."""
     ir = real.ir
     for ty, c1, c2 in ((ir.ptr, 4, 8), (ir.ptr, 0, 1 << 40), (ir.f64, 1.5, 2.5), (ir.f32, 0.5, 0.25)):
         for op in "+-":
@@ -442,8 +442,9 @@ def non_integer_chains(ctx, real):
                 got = "err " + type(ex).__name__
             ctx.count("eval_chain_non_integer")
             want = f"ok rechain {ty} {c1 + c2!r}"
-            if got != want:
-                ctx.disagree("chain-non-integer-type", case, got, want + "  (expected: plain sum, as cast() does for ptr/float)")
+            ctx.count("chain_non_integer_" + got.split()[1])
+            if got not in (want, "ok keep"):      # rewriting is optional here; raising or a wrong constant is not
+                ctx.disagree("chain-non-integer-type", case, got, want + " | ok keep  (if rewritten: the plain sum, as cast() does for ptr/float)")
 
 
 def check(ctx):
